@@ -1,0 +1,20 @@
+//go:build !verif
+
+/*
+ * SPDX-License-Identifier: Apache-2.0
+ */
+
+package z
+
+// Verification hooks, disabled: empty bodies, removed by the compiler. Build
+// with `-tags verif` to enable them (see verif_on.go).
+
+const (
+	verifSiteAllocAdd      = 1 // Allocate: before the packed atomic add
+	verifSiteAllocAdded    = 2 // Allocate: position reserved, before the chunk is read
+	verifSiteAllocLock     = 3 // Allocate: chunk overshot, before the slow-path lock
+	verifSiteAllocUnlocked = 4 // Allocate: slow path left
+	verifSiteAllocReset    = 5
+)
+
+func verifYield(site int) {}
